@@ -37,6 +37,7 @@ def category_map():
         "duplicate-parameter": {sem["duplicate"]},
         "reserved-name": {sem["reserved"], syn["reserved"]},
         "type": {sem["type"]},
+        "method": {sem["undeclared"], sem["type"]},
     }
 
 
